@@ -31,6 +31,12 @@ What runs (props/engine_common.run_engine_check):
     from its 8th call on: the check is invoked <= 4 times during the action instead of 30 and the scope ends Completed.
     Reported through the known-findings protocol (KNOWN-FINDING line while listed as known; a violation if not listed;
     a NOTE if the implementation no longer shows it).  Statement side: props/C07.v, Mech.c07_keeps_rerunning_refuted.
+  * KNOWN FINDING K2 ("after everything else in that scope", strict reading): mon_cont_deferred exempts the scope's own
+    continuous group in clause 5; mon_cont_deferred_strict (clauses 20 / 21: a continuous run begins after the scope's
+    deferred / post run has begun) is evaluated on every trace as well (appended to the diagnosis).  Traces on which only
+    the strict monitor is false, at BLOCK level, are K2 (one KNOWN-FINDING line per run, with a deterministic witness
+    harness/cmd/c07k2: continuous runs of 30 ms, a 5 ms action, a 150 ms deferred check); at PLAN level it is a VIOLATION.
+    Statement side: props/C07.v, c07_deferred_last_refuted_block.
 """
 from vf import framework as fw
 from props import engine_common as ec
@@ -90,15 +96,94 @@ def check_k1(ctx):
         "offsets_ms_from_action_start")}) for c in wit])
 
 
+K2_WHAT = ("block continuous checks keep running during the block's post and deferred checks: the block's continuous thread is only "
+           "cancelled and drained in BlockEnd, after BlockPostChecks and BlockDeferredChecks (the plan level stops it before its post and "
+           "deferred checks), so runs of the block's continuous group BEGIN after its deferred (post) run has begun")
+EXTRA_HEADER = "From Coercion.C07 Require Import MonC07."
+
+
+def _strict(r):
+    """strict diagnosis [code, event index, scope, run] appended to mon_cont_deferred_diag2 (None = strict monitor holds)."""
+    if r is None or len(r) < 3 or not r[2] or r[2][0] != 0 or len(r[2]) < 9:
+        return None
+    return r[2][5:9]
+
+
+def _ev_us(c, idx):
+    try:
+        return int(c["observed"]["events"][idx].split()[1].lstrip("+").rstrip("us"))
+    except Exception:
+        return None
+
+
+def _k2_describe(c, st):
+    code, idx, scope, run = st
+    b = scope - 1
+    grp = "deferred" if code == 20 else "post"
+    t0 = next((_ev_us(c, i) for i, e in enumerate(c["observed"]["events"])
+               if ("Write block%d.%s[" % (b, grp)) in e and "Running n=0" in e), None)
+    t1 = _ev_us(c, idx)
+    dt = "%.1f ms" % ((t1 - t0) / 1000.0) if t0 is not None and t1 is not None else "?"
+    return "%s: continuous run %d of block %d began %s after its %s group" % (c["id"], run, b, dt, grp)
+
+
+def check_k2(ctx, mons, live, results):
+    """Known finding K2: traces of this run on which ONLY the strict monitor is false (block level), plus a deterministic witness."""
+    header = ec._header(EXTRA_HEADER, ec._mon_specs(mons))
+    shown, other = [], []
+    for c, r in zip(live, results):
+        st = _strict(r)
+        if st is None:
+            continue
+        (shown if st[0] in (20, 21) and st[2] >= 1 else other).append((c, st))
+    # any other failure of the strict monitor (plan level) is a violation
+    if other:
+        other.sort(key=lambda x: ec._size(x[0]))
+        c, st = other[0]
+        ctx.violation(ec._replay_obj(ctx, c, "strict-monitor-false", "mon_cont_deferred_strict false at PLAN level (clause %d at event #%d): a run of the "
+                                     "plan's continuous group began after its %s run had begun; %d traces" % (st[0], st[1], "deferred" if st[0] == 20 else "post", len(other)),
+                                     None, ec._mon_specs(mons), dict(failing_monitor="mon_cont_deferred_strict", strict=st)))
+    wit = ctx.harness("c07k2", ["-slow", "150", "-cont", "30"], out_name="k2.jsonl", timeout=120)
+    wdesc, wok = None, False
+    if wit:
+        ok_cases = [c for c in wit if c.get("coq") and not (c.get("note") or "").startswith("hang")]
+        if ok_cases:
+            wres, _ = ec.evaluate(ctx, "k2", ok_cases, header)
+            c, r = ok_cases[0], wres[0]
+            acc, bad, why = ec.classify(c, r, ec._mon_specs(mons))
+            wok = acc and not bad
+            if not wok:
+                ctx.violation(ec._replay_obj(ctx, c, "k2-witness-rejected", "the K2 witness trace is not accepted / violates mon_cont_deferred: %s %s" % (why, bad),
+                                             r, ec._mon_specs(mons)), nofail=not bad)
+            st = _strict(r)
+            if st and st[0] in (20, 21) and st[2] >= 1:
+                wdesc = _k2_describe(c, st)
+            elif wok:
+                ctx.notes.append("witness K2: the implementation no longer shows the finding (strict monitor holds on the witness trace)")
+    ctx.oblige("witness K2 replayed on the implementation", bool(wit) and wok)
+    if shown or wdesc:
+        shown.sort(key=lambda x: ec._size(x[0]))
+        eg = _k2_describe(*shown[0]) if shown else None
+        line = K2_WHAT + " [%d traces of this run show it%s; witness %s]" % (len(shown), (", e.g. " + eg) if eg else "", wdesc or "not shown")
+        if ctx.finding_status("K2") == "known":
+            ctx.known("K2", line)
+        else:
+            c = shown[0][0] if shown else wit[0]
+            ctx.violation(ec._replay_obj(ctx, c, "finding-not-listed-as-known", K2_WHAT, None, ec._mon_specs(mons),
+                                         dict(finding="K2", traces=[x[0]["id"] for x in shown[:30]], witness=wdesc)))
+    return dict(traces_showing_it=len(shown), by_clause=fw.histogram(x[1][0] for x in shown), examples=[_k2_describe(*x) for x in shown[:5]],
+                witness=wdesc, strict_false_at_plan_level=len(other))
+
+
 def run(ctx):
     write_evidence, captured = ctx.evidence, {}
     ctx.evidence = lambda coverage, assumptions=None, level="proof": captured.update(cov=coverage, asm=assumptions, level=level)
-    mons = ["mon_cont_deferred", ("mon_cont_deferred_diag", "list")]
+    mons = ["mon_cont_deferred", ("mon_cont_deferred_diag2", "list")]
     out = ec.run_engine_check(
         ctx,
         profile=[("cont", 252, 2520), ("final", 128, 1920), ("tol", 180, 1080), ("mixed", 48, 720)],
         n_quick=0, n_thorough=0,
-        extra_header="From Coercion.C07 Require Import MonC07.",
+        extra_header=EXTRA_HEADER,
         monitors=mons,
         release_obligation=False,
         harness_args=["-deferred", "0.7"],
@@ -179,7 +264,11 @@ def run(ctx):
                 scopes_with_failed_cont_run=fw.histogram(stats["scopes_cont_failed"]),
                 scripted_failing_run_k={str(k): v for k, v in sorted(by_k.items())})
     k1 = None if ctx.replay else check_k1(ctx)
+    k2 = check_k2(ctx, mons, out["live"], out["results"]) if (out and not ctx.replay) else None
     if "cov" in captured:
+        if k2:
+            captured["cov"]["known_finding_K2"] = k2
+            captured["cov"]["notes"] = ctx.notes[:40]
         if k1:
             captured["cov"]["known_finding_K1"] = k1
             captured["cov"]["notes"] = ctx.notes[:40]
